@@ -275,6 +275,12 @@ package pubsub
 //@   ensures remembered: (drStatusSeen[lastret((*messageDeliveries).getRecord)] == deliveryValid || drStatusSeen[lastret((*messageDeliveries).getRecord)] == deliveryUnknown) ==>
 //@        msg.ReceivedFrom in lastret((*messageDeliveries).getRecord).peers
 //@   ensures status-untouched: lastret((*messageDeliveries).getRecord).status == drStatusSeen[lastret((*messageDeliveries).getRecord)]
+//@   ensures new-duplicate-of-a-valid-message-credited: drStatusSeen[lastret((*messageDeliveries).getRecord)] == deliveryValid && !drFwdSeen[lastret((*messageDeliveries).getRecord)][msg.ReceivedFrom] ==>
+//@        calls((*peerScore).markDuplicateMessageDelivery) == old(calls((*peerScore).markDuplicateMessageDelivery)) + 1
+//@   ensures new-duplicate-of-an-invalid-message-penalised: drStatusSeen[lastret((*messageDeliveries).getRecord)] == deliveryInvalid && !drFwdSeen[lastret((*messageDeliveries).getRecord)][msg.ReceivedFrom] ==>
+//@        nInvalid() == 1 && lastarg((*peerScore).markInvalidMessageDelivery, 1) == msg.ReceivedFrom
+//@   ensures repeated-duplicate-ignored: drFwdSeen[lastret((*messageDeliveries).getRecord)][msg.ReceivedFrom] ==>
+//@        nInvalid() == 0 && calls((*peerScore).markDuplicateMessageDelivery) == old(calls((*peerScore).markDuplicateMessageDelivery))
 //@   ensures released: !held(ps.Mutex)
 
 // OnClosedOutboundStream (retention): a positive score is dropped with the peer's statistics; a
@@ -417,13 +423,17 @@ package pubsub
 //@            (d.records[k].status == deliveryUnknown || d.records[k].status == deliveryValid ==> d.records[k].peers != nil && allocated(d.records[k].peers)))
 // drStatusSeen[r]: the status record r had when getRecord last handed it out (definitional ghost).
 //@ ghost var drStatusSeen mmap[ref]int
+// drFwdSeen[r]: the forwarders record r listed when getRecord last handed it out.
+//@ ghost var drFwdSeen mmap[ref]mset[string]
 //@ func (*messageDeliveries).getRecord
 //@   property C10 C12
 //@   safe
 //@   requires rep: drRep(d)
 //@   noframe
-//@   modifies drStatusSeen
+//@   modifies drStatusSeen, drFwdSeen
 //@   ghost-effect handed-out: drStatusSeen[result] == result.status && (forall o ref :: o != result ==> drStatusSeen[o] == old(drStatusSeen[o]))
+//@   ghost-effect forwarders-handed-out: (forall q string :: drFwdSeen[result][q] == (q in result.peers)) &&
+//@        (forall o ref, q string :: o != result ==> drFwdSeen[o][q] == old(drFwdSeen[o][q]))
 //@   ensures known-id: old(id in d.records) ==> result == old(d.records[id]) && result.status == old(d.records[id].status) && result.peers == old(d.records[id].peers) &&
 //@        result.validated == old(d.records[id].validated)
 //@   ensures new-id: !old(id in d.records) ==> fresh(result) && result.status == deliveryUnknown && result.peers != nil && fresh(result.peers) && len(result.peers) == 0 &&
